@@ -157,6 +157,17 @@ def _exec_unit(args):
         obs = []
         for ob in rr.obligations:
             # lemmas are proved from nothing (they must not be used to prove themselves)
+            ring = False
+            if ob.kind in ("post", "inv.preserve", "inv.init"):
+                try:
+                    from pyvc.sigma import ring_proves
+                    ring = ring_proves(ob.goal, list(ob.hyps) + list(axioms))
+                except Exception:
+                    ring = False
+            if ring:
+                obs.append({"name": ob.name, "kind": ob.kind, "meta": ob.meta, "soft": ob.soft, "smt2": "",
+                            "variants": [], "nhyps": len(ob.hyps), "ring": True})
+                continue
             if ob.kind == "lemma":
                 variants = [solve.obligation_smt2(ob, [])]
             elif ob.kind == "canary" or not axioms:
@@ -238,7 +249,12 @@ def run_property(pid, tier="quick", seed=0, verbose=True, only_unit=None):
     verdicts = {}
     kinds = {ob["name"]: ob["kind"] for u in unit_results for ob in u["obligations"]}
     allobs = {ob["name"]: ob for u in unit_results for ob in u["obligations"]}
-    pending = list(allobs)
+    pending = []
+    for n, ob in allobs.items():
+        if ob.get("ring"):
+            verdicts[n] = {"verdict": "proved", "time_s": 0.0, "backend": "ring-normaliser", "reason": "", "rlimit": 0}
+        else:
+            pending.append(n)
     stage = 0
     while pending:
         jobs = []
@@ -271,7 +287,7 @@ def run_property(pid, tier="quick", seed=0, verbose=True, only_unit=None):
         stage += 1
     texts = {n: ob["smt2"] for n, ob in allobs.items()}
     retry = [(n, texts[n], solve.CVC5_TIMEOUT_MS) for n, v in verdicts.items()
-             if kinds[n] != "canary" and (v["verdict"] == "unknown" or tier == "thorough")]
+             if kinds[n] != "canary" and texts[n] and (v["verdict"] == "unknown" or tier == "thorough")]
     for name, verdict, dt, be, reason, rl in pool.imap_unordered(solve._solve_cvc5_text, retry, chunksize=1):
         prev = verdicts[name]
         if prev["verdict"] == "unknown":
